@@ -13,7 +13,7 @@ CHECKS = {
           "histories of the real BitField are validated by Trace_BitWindow, and a table of real SeqNum results is judged by TLC. Model checking is the "
           "right level: the structure is a small state machine and the property quantifies over its histories."),
     note=("Exhaustive only within the stated bounds (positions within W+3 of the newest, W=8 at the real ring); larger widths are sampled by walks and "
-          "recorded traces. TLC, the JSON bridge and the projection of BitField.bits to offset sets are trusted. <=/>= on SeqNum are not constrained.")),
+          "recorded traces. TLC, the JSON bridge and the projection of BitField.bits to offset sets are trusted. <= and >= on SeqNum are judged too (since the second build session).")),
  "C20": dict(
     level="model_checking",
     technique="TLC exhaustive model checking of Dispatch + replay of every transition of the TLC state graph into both real dispatchers (state equality)",
@@ -227,3 +227,28 @@ _ADD3 = {
 }
 for _k, _t in _ADD3.items():
     CHECKS[_k]["technique"] += _t
+
+# second build session (rounds 8 and 9, audit of the unchanged tree)
+_ADD4 = {
+ "C01": " + injections through the public client API (UdpClient.update, connection established / DROPPED / DISCONNECTING, status read between two updates) + floods of forged datagrams through the server loop + extensions of genuine datagrams judged strictly",
+ "C02": " + the attacker may send its challenge response unsealed + refused-hello histories (the client polled past every clock, further copies under fresh datagram numbers) + extended challenge responses",
+ "C04": " + scripted histories in which the receiving application calls disconnect() and retransmissions keep arriving",
+ "C07": " + damaged copies of lost datagrams put in front of the peer (success only for what it accepted)",
+ "C08": " + <= / >= columns in the SeqNum table + the message window across disconnect()",
+ "C09": " + the MTU configured while the connection objects exist (every second cell of the both-API grid)",
+ "C05": " + the MTU configured while the connection objects exist",
+ "C10": " + connected clients that transmit their challenge response again + a connected peer that bundles a CLIENT_HELLO-typed message with application data (clause L_token)",
+ "C11": " + block lists in the spellings a dual-stack transport reports, judged against the operator's own record; the lock-stepped world is total when the server loop dies",
+ "C12": " + clause T_stayup (a CONNECTED client over a healthy link stays CONNECTED) + first answer slower than the client's message time-out with the client at its own frame rate + a server that sends state to every client on every tick",
+ "C13": " + objects with container-annotated fields set to None / empty / filled",
+ "C14": " (the observation loop stops after three watchdog hits)",
+ "C15": " + a Set of nested objects",
+ "C16": " + bindings compared exactly as reported",
+ "C18": " + the bytes written by the library's own writers on a recording socket against the RFC 6455 encoding, for random masking keys",
+ "C19": " + the two length bytes edited together, digests truncated together with their length byte, damage that a lenient base64 reader skips",
+}
+for _k, _t in _ADD4.items():
+    CHECKS[_k]["technique"] += _t
+NOTES = NOTES.replace("Extension checks X01..X05", "Extension checks X01..X11")
+NOTES += (" audit/ holds demonstration programs written by independent sub-agents that audited the unchanged tree against the property texts (DESIGN 7.6); "
+          "the defects among them that were repaired are the `fixed:` lines D22..D28 of KNOWN_FINDINGS.txt.")
